@@ -87,7 +87,7 @@ def rw_jobs(prop, stress_runs, patterns, stress_args=(), pattern_args=(), varian
 RW_FIELDS = ('runs', 'patterns', 'sections', 'reads', 'writes', 'parks', 'maxReaders', 'batches2', 'windowHits',
              'idleAsleepHits', 'runsWithHit', 'pairsLive', 'pairsWW', 'pairsWR', 'pairsRW', 'maxQueue', 'idleProbes',
              'readersNoWriter', 'readerParksJudged', 'rendezvous', 'rendezvousReaders', 'predictedParks',
-             'predictedFast', 'lateArrivalPatterns', 'lateArrivals', 'sectionsNestedInOtherResource', 'recursiveReadLocks', 'queuesDeeperThan64', 'readerCrowdsOver255', 'marathonRequests', 'marathonReleasesWithQueue', 'spuriousWakeupsInjected', 'delaysAfterWake', 'delaysCondEntry', 'delaysOther', 'condWaits')
+             'predictedFast', 'lateArrivalPatterns', 'lateArrivals', 'sectionsNestedInOtherResource', 'recursiveReadLocks', 'queuesDeeperThan64', 'readerCrowdsOver255', 'simultaneousReadersOver255', 'marathonRequests', 'marathonReleasesWithQueue', 'spuriousWakeupsInjected', 'delaysAfterWake', 'delaysCondEntry', 'delaysOther', 'condWaits')
 
 
 def rw_evidence(rule):
@@ -138,7 +138,7 @@ SPECS['C12'] = dict(
     title='Resource lets readers share',
     jobs=lambda tier, seed: (
         rw_jobs('C12', (12, 400), (1500, 60000), stress_args=['wp=0'], pattern_args=['rdv=700'], variants=('mon', 'mon-ndebug'))(tier, seed)
-        + rw_jobs('C12', (8, 300), (0, 0), variants=('mon',))(tier, seed + 1)),
+        + rw_jobs('C12', (8, 300), (0, 0), variants=('mon',), marathons=(1, 16))(tier, seed + 1)),
     require={'any': {'readersNoWriter': 20000, 'rendezvous': 500, 'rendezvousReaders': 1000, 'readerParksJudged': 100}},
     evidence=rw_evidence('(a) writer-free stress (4-32 readers): no read request may enter cond_wait; mixed stress: a reader may park only if '
                          'some writer interval [issue, unlock_return] overlaps its [issue, lock_return]; scripted patterns predict exactly '
@@ -555,6 +555,10 @@ def crouter_jobs(tier, seed):
     for vi, (variant, n) in enumerate((('mon', 32), ('asan', 16)) if q else (('mon', 2400), ('asan', 600), ('mon-ndebug', 600))):
         for frm, cnt in split(n, 4 if q else 8):
             jobs.append(Job('h_crouter', variant, pseed(seed, 'C11', 40 + vi), frm, cnt, ['mode=fast'], label=variant + '/fast'))
+    # more than 255 deliveries in progress at once, then a write
+    for vi, (variant, n) in enumerate((('mon', 6),) if q else (('mon', 300), ('mon-ndebug', 100))):
+        for frm, cnt in split(n, 2 if q else 8):
+            jobs.append(Job('h_crouter', variant, pseed(seed, 'C11', 60 + vi), frm, cnt, ['mode=crowd'], label=variant + '/crowd'))
     return jobs
 
 
@@ -577,7 +581,7 @@ SPECS['C11'] = dict(
         'distinct = fingerprints of the order of operation returns',
         samples, observed=pick(agg, 'histories', 'ops', 'notifies', 'notifiesWithCallbacks', 'callbacks', 'subscribes', 'unsubscribes', 'shrinks', 'existsCalls', 'depthCalls', 'writesOverlappingNotify',
                                'snapshotsJudged', 'snapshotsWithConcurrentWrite', 'missedObserversJudged', 'maxThreads', 'delaysInjected', 'lockParks',
-                               'linHistories', 'linOperations', 'linSearchNodes', 'linInconclusive', 'linHistoriesWithOverlap', 'fastChurnCases', 'fastChurnOperations', 'deliveriesEndedByException', 'staleHandleUnsubscribesRejected')),
+                               'linHistories', 'linOperations', 'linSearchNodes', 'linInconclusive', 'linHistoriesWithOverlap', 'fastChurnCases', 'fastChurnOperations', 'deliveriesEndedByException', 'staleHandleUnsubscribesRejected', 'crowdCases', 'maxSimultaneousDeliveries')),
     assumptions=['mute/unmute and in-callback invalidation are excluded: the quantifier does not list them and they bypass the lock by design', 'callbacks do not call back into the router',
                  'large histories: every rule is a necessary condition of linearizability (such a check can miss non-linearizable histories that satisfy all four rules); small histories: complete search, the sequential SubjectRouter is the specification'],
     manifest=dict(engine='h_crouter', text='Offline checker over stamped call/return/callback events of real multi-threaded histories: four necessary conditions of linearizability decided exactly per notify '
